@@ -3128,6 +3128,7 @@ def gen_pydhook(lib_dir: str, header: str) -> str:
             "    type, `declared` = the scalar types it declares (`_resolve_numpy_dtype`), `hasDtypes` / `member` = the class's `DTYPES` -/\n")
     out += "def schemaHook (numpyAvailable isNdarray hasDtypes : Bool) (member : DT → Bool) (declared : List DT) : SchemaOutcome :=\n  " + body + "\n\n"
     out += _gen_numpy_dtype(mod)
+    out += _gen_unwrap_alias(mod)
     out += "end Dltype.Gen\n"
     return out
 
@@ -3202,6 +3203,117 @@ def _gen_numpy_dtype(mod) -> str:
     out += ("/-- `_resolve_numpy_dtype(np_array_t)`: the scalar types a numpy array type declares, unions flattened (`none` = IndexError: the type\n"
             "    has fewer arguments than the index read) -/\n")
     out += "def resolveNumpyDtype (np_array_t : TObj) : Option (List TObj) :=\n" + "".join("  " + l + "\n" for l in lines) + "\n"
+    return out
+
+
+UNWRAP_HEADER = """/-- a `typing` object as `unwrap_type_alias` sees it -/
+inductive AObj
+  | cls (id : Nat)                              -- a class, a type variable, a special form: no origin, no `__value__`
+  | alias (id : Nat) (value : AObj)             -- `type X[…] = value` (an alias object): `typing.get_origin` is None, `__value__` is the value
+  | sub (origin : AObj) (args : List AObj)      -- `origin[args]`: `typing.get_origin` / `typing.get_args`; other attributes are the origin's
+  | inst (generic : AObj) (args : List AObj)    -- what `generic[args]` evaluates to for the *value* of an alias (typing substitutes the parameters)
+
+/-- `typing.get_origin(x)` -/
+def AObj.getOrigin : AObj → Option AObj
+  | .sub o _ => some o
+  | .inst g _ => (match g with | .sub o _ => some o | _ => none)   -- substitution keeps the head; never inspected by one call
+  | _ => none
+/-- `typing.get_args(x)` -/
+def AObj.getArgs : AObj → List AObj
+  | .sub _ as => as
+  | .inst _ as => as
+  | _ => []
+/-- `x.__value__` (`none` = AttributeError); a subscripted generic hands attribute access on to its origin -/
+def AObj.value? : AObj → Option AObj
+  | .alias _ v => some v
+  | .sub o _ => o.value?
+  | .inst g _ => (match g with | .sub o _ => o.value? | _ => none)
+  | _ => none
+
+/-- a Python value in `unwrap_type_alias`: a typing object or `None` -/
+abbrev PV := Option AObj
+def pvOrigin (e : PV) : PV := e.bind AObj.getOrigin
+def pvArgs (e : PV) : List AObj := match e with | some x => x.getArgs | none => []
+def pvValue (e : PV) : PV := e.bind AObj.value?
+
+"""
+
+
+def _gen_unwrap_alias(mod) -> str:
+    """`unwrap_type_alias`: statements read one by one; every local is a Python value (`PV`), the result `Option PV` (`none` = an exception)"""
+    f = next((n for n in mod.body if isinstance(n, ast.FunctionDef) and n.name == "unwrap_type_alias"), None)
+    if f is None or [a.arg for a in f.args.args] != ["tp"] or f.args.kwonlyargs or f.args.vararg or f.args.kwarg or f.decorator_list:
+        raise TErr("unwrap_type_alias: not found / parameters / decorated")
+    known = {"tp"}
+
+    def is_value_attr(e) -> bool:
+        return isinstance(e, ast.Constant) and e.value == "__value__"
+
+    def pv(e) -> str:
+        """an expression denoting a Python value that cannot raise"""
+        if isinstance(e, ast.Name) and e.id in known:
+            return e.id
+        if isinstance(e, ast.Constant) and e.value is None:
+            return "(none : PV)"
+        if isinstance(e, ast.Call) and _src(e.func) == "typing.get_origin" and len(e.args) == 1 and not e.keywords:
+            return f"(pvOrigin {pv(e.args[0])})"
+        if isinstance(e, ast.Call) and _src(e.func) == "getattr" and len(e.args) == 3 and not e.keywords and is_value_attr(e.args[1]):
+            return f"(match pvValue {pv(e.args[0])} with | some v => some v | none => {pv(e.args[2])})"
+        raise TErr(f"unwrap_type_alias: expression `{_src(e)[:120]}`")
+
+    def args(e) -> str:
+        if isinstance(e, ast.Call) and _src(e.func) == "typing.get_args" and len(e.args) == 1 and not e.keywords:
+            return f"(pvArgs {pv(e.args[0])})"
+        raise TErr(f"unwrap_type_alias: subscript `{_src(e)[:120]}`")
+
+    def result(e) -> str:
+        """an expression in return position: `Option PV`"""
+        if isinstance(e, ast.Subscript) and isinstance(e.value, ast.Attribute) and e.value.attr == "__value__":
+            return f"(match pvValue {pv(e.value.value)} with | none => none | some v => some (some (AObj.inst v {args(e.slice)})))"
+        if isinstance(e, ast.Attribute) and e.attr == "__value__":
+            return f"(match pvValue {pv(e.value)} with | none => none | some v => some (some v))"
+        return f"(some {pv(e)})"
+
+    def cond(e) -> str:
+        if isinstance(e, ast.BoolOp):
+            return "(" + (" && " if isinstance(e.op, ast.And) else " || ").join(cond(v) for v in e.values) + ")"
+        if isinstance(e, ast.UnaryOp) and isinstance(e.op, ast.Not):
+            return f"(!{cond(e.operand)})"
+        if isinstance(e, ast.Compare) and len(e.ops) == 1 and isinstance(e.comparators[0], ast.Constant) and e.comparators[0].value is None:
+            if isinstance(e.ops[0], ast.IsNot):
+                return f"{pv(e.left)}.isSome"
+            if isinstance(e.ops[0], ast.Is):
+                return f"{pv(e.left)}.isNone"
+        if isinstance(e, ast.Call) and _src(e.func) == "hasattr" and len(e.args) == 2 and is_value_attr(e.args[1]):
+            return f"(pvValue {pv(e.args[0])}).isSome"
+        raise TErr(f"unwrap_type_alias: condition `{_src(e)[:120]}`")
+
+    def block(stmts) -> str:
+        if not stmts:
+            return "(some (none : PV))"   # falls off the end: returns None
+        s = stmts[0]
+        if isinstance(s, ast.Assign) and len(s.targets) == 1 and isinstance(s.targets[0], ast.Name):
+            t = pv(s.value)
+            known.add(s.targets[0].id)
+            return f"let {s.targets[0].id} : PV := {t}\n  " + block(stmts[1:])
+        if isinstance(s, ast.Return):
+            return result(s.value) if s.value is not None else "(some (none : PV))"
+        if isinstance(s, ast.If):
+            c = cond(s.test)
+            then_leaves = bool(s.body) and isinstance(s.body[-1], ast.Return)
+            else_leaves = bool(s.orelse) and isinstance(s.orelse[-1], ast.Return)
+            saved = set(known)
+            then = block(list(s.body) + ([] if then_leaves else stmts[1:]))
+            known.clear(); known.update(saved)
+            els = block(list(s.orelse) + ([] if else_leaves else stmts[1:]))
+            known.clear(); known.update(saved)
+            return f"if {c} then {then} else\n  {els}"
+        raise TErr(f"unwrap_type_alias: statement `{_src(s)[:120]}`")
+
+    body = block(_strip(f.body))
+    out = UNWRAP_HEADER
+    out += ("/-- `unwrap_type_alias(tp)`: `some (some x)` = returns the typing object `x`, `some none` = returns None, `none` = raises -/\n")
+    out += "def unwrapTypeAlias (tp : AObj) : Option PV :=\n  let tp : PV := some tp\n  " + body + "\n\n"
     return out
 
 
